@@ -233,3 +233,6 @@ def run(model, col, tier):
     from . import c10
 
     c10.check_compat_guards(model, col, "R05.9")
+    from . import c09 as _c09
+
+    _c09.check_builtin_names(model, col, "R05.9")
